@@ -47,7 +47,7 @@ Lemma cv_decode_cls first r :
            Ok (N.shiftl first 24 + N.shiftl p1 16 + N.shiftl p2 8 + p3 + cv_thr_3 - N.shiftl cv_pref_4 24, r') | _ => Err end
   | _ => match r with p1 :: p2 :: p3 :: p4 :: r' =>
            match add_u32 (N.shiftl (N.shiftl (N.shiftl p1 8 + p2) 8 + p3) 8 + p4) cv_thr_4 with
-           | Some v => Ok (v, r') | None => Panic end
+           | Some v => Ok (v, r') | None => if cv5_checked then Err else Panic end
          | _ => Err end
   end.
 Proof.
